@@ -137,13 +137,28 @@ Proof.
     - try rewrite En in Ed'. inversion Ed'; subst. reflexivity. }
   destruct (match l with
             | Face => _
-            | _ => Ok None
-            end) as [cc|e]; [|discriminate].
+            | _ => Ok (None, None)
+            end) as [ccs|e]; [|discriminate].
   intros H. inversion H; subst s; clear H. simpl. split.
   - destruct l; simpl; try reflexivity; apply Hrows; discriminate.
   - intros b Hb. destruct l; [discriminate| |];
       destruct (assoc "node_coordinates"%string (mm_coords m)) as [[|? ?]|]; try discriminate;
       inversion Hb; reflexivity.
+Qed.
+
+(* the domain axis of a location is the dimension mesh.ncdim names, and a data variable that is
+   given the constructs spans it: their rows are the size of the variable's own dimension *)
+Lemma summarise_axis m l s : summarise m l = Ok (Some s) ->
+  loc_dim m l = Ok (Some (ls_dim s)) /\ ls_axis s = dim_size m (ls_dim s).
+Proof.
+  unfold summarise, rbind. destruct (loc_dim m l) as [[d|]|e]; try discriminate.
+  destruct (dt_source m l) as [[[cell conn] lname]|]; [|discriminate].
+  destruct (conn_cells m lname conn) as [[rows tr]|e]; [|discriminate].
+  destruct (match l with
+            | Face => _
+            | _ => Ok (None, None)
+            end) as [ccs|e]; [|discriminate].
+  intros H. inversion H; subst s. split; reflexivity.
 Qed.
 
 (* a mesh the checks accept: the domain topology and the bounds of every location have as
@@ -161,8 +176,9 @@ Proof.
     (split; [exact H1|]; intros b Hb; rewrite (H2 b Hb); exact H1).
 Qed.
 
-(* the cell connectivity is not tied to the face dimension by any check: a
-   face_face_connectivity variable on another dimension is accepted *)
+(* before handoff/C15-fix3-1.diff the cell connectivity was not tied to the face dimension by
+   any check: a face_face_connectivity variable on another dimension was accepted and a
+   construct with another number of rows than there are faces created (attaching it raised) *)
 Definition ex_bad_ff : meshmeta :=
   {| mm_dims := [("nNodes", 4); ("nFaces", 2); ("three", 3); ("nOther", 5)]%string;
      mm_vars := [("x", ["nNodes"]); ("y", ["nNodes"]); ("fn", ["nFaces"; "three"]); ("ff", ["nOther"; "three"])]%string;
@@ -170,27 +186,51 @@ Definition ex_bad_ff : meshmeta :=
      mm_coords := [("node_coordinates", ["x"; "y"])]%string;
      mm_topdim := Some 2; mm_si := [] |}.
 
-Lemma cc_rows_refuted : exists m n e s c,
-  parse_mesh m = Ok (Some [n; e; Some s]) /\ ls_cc s = Some c /\ fst (fst c) <> ls_axis s.
+Lemma cc_rows_old_refuted : exists m n e s c,
+  parse_mesh m = Ok (Some [n; e; Some s]) /\ ls_cc_old s = Some c /\ fst (fst c) <> ls_axis s /\
+  attach_ok_old s = false /\ ls_cc s = None.
 Proof.
   exists ex_bad_ff. eexists. eexists. eexists. eexists. split; [vm_compute; reflexivity|].
-  split; [reflexivity|]. simpl. discriminate.
+  split; [reflexivity|]. split; [simpl; discriminate|]. split; reflexivity.
 Qed.
 
-(* ... under the guard that the connectivity spans the face dimension it has one row per face *)
-Lemma cc_rows_guarded m s c ff i dims d :
-  summarise m Face = Ok (Some s) -> ls_cc s = Some c ->
-  assoc "face_face_connectivity"%string (mm_attrs m) = Some ff ->
-  var_dims m ff = Some dims -> cell_dimension m "face" ff = Ok i -> nth_error dims i = Some d ->
-  loc_dim m Face = Ok (Some d) ->
-  fst (fst c) = ls_axis s.
+Lemma conn_dim_rows m lname conn d rows tr :
+  conn_dim m lname conn = Ok d -> conn_cells m lname conn = Ok (rows, tr) -> rows = dim_size m d.
 Proof.
-  intros Hs Hc Hff Hd Hi Hn Hl. unfold summarise, rbind in Hs. rewrite Hl in Hs.
+  unfold conn_dim, conn_cells, rbind. destruct (cell_dimension m lname conn) as [i|e]; [|discriminate].
+  destruct (var_dims m conn) as [dims|]; [|discriminate].
+  destruct (nth_error dims i) as [x|]; [|discriminate]. intros H1 H2. inversion H1; inversion H2; subst. reflexivity.
+Qed.
+
+(* the repaired reader: a cell connectivity construct, when one is created, has one row per face *)
+Lemma cc_rows m s c : summarise m Face = Ok (Some s) -> ls_cc s = Some c -> fst (fst c) = ls_axis s.
+Proof.
+  unfold summarise, rbind. destruct (loc_dim m Face) as [[d|]|e]; try discriminate.
   destruct (dt_source m Face) as [[[cell conn] lname]|]; [|discriminate].
   destruct (conn_cells m lname conn) as [[rows tr]|e]; [|discriminate].
-  rewrite Hff in Hs. unfold var_exists in Hs. rewrite Hd in Hs.
-  unfold conn_cells, rbind in Hs. rewrite Hi, Hd, Hn in Hs. simpl in Hs.
-  inversion Hs; subst s. simpl in *. inversion Hc; subst c. reflexivity.
+  destruct (assoc "face_face_connectivity"%string (mm_attrs m)) as [ff|].
+  - destruct (var_exists m ff).
+    + destruct (conn_cells m "face" ff) as [[rows2 tr2]|e] eqn:E2; [|discriminate].
+      destruct (conn_dim m "face" ff) as [dn|e] eqn:Ed; [|discriminate].
+      intros H. inversion H; subst s; clear H. cbn [ls_cc ls_axis fst snd].
+      destruct (var_dims m ff) as [[|a [|b [|? ?]]]|]; try discriminate.
+      destruct (String.eqb dn d) eqn:Es; [|discriminate]. apply String.eqb_eq in Es. subst dn.
+      intros H. inversion H; subst c. simpl. apply (conn_dim_rows m "face" ff d rows2 tr2 Ed E2).
+    + intros H. inversion H; subst s. discriminate.
+  - intros H. inversion H; subst s. discriminate.
+Qed.
+
+Lemma attach_rows m l s s' dd : summarise m l = Ok (Some s) -> attach s dd = Some s' ->
+  fst (fst (ls_dt s')) = dim_size m dd /\
+  (forall c, ls_cc s' = Some c -> l = Face -> fst (fst c) = dim_size m dd) /\
+  (forall b, ls_bounds s' = Some b -> fst (fst b) = dim_size m dd).
+Proof.
+  intros Hs Ha. unfold attach in Ha. destruct (String.eqb dd (ls_dim s)) eqn:E; [|discriminate].
+  inversion Ha; subst s'. apply String.eqb_eq in E. subst dd.
+  destruct (summarise_axis m l s Hs) as [_ Hax]. destruct (summarise_rows m l s Hs) as [H1 H2].
+  rewrite <- Hax. split; [exact H1|]. split.
+  - intros c Hc Hl. subst l. apply (cc_rows m s c Hs Hc).
+  - intros b Hb. rewrite (H2 b Hb). exact H1.
 Qed.
 
 (* non-vacuity: a one-based mesh stored (node, cell) with face_dimension set *)
@@ -204,8 +244,8 @@ Definition ex_mesh : meshmeta :=
      mm_topdim := Some 2; mm_si := [("fn", 1); ("ff", 1)]%string |}.
 
 Example ex_mesh_parsed : parse_mesh ex_mesh = Ok (Some
-  [Some {| ls_axis := 7; ls_cell := "point"; ls_dt := (7, false, 0); ls_cc := None; ls_bounds := None |};
-   Some {| ls_axis := 9; ls_cell := "edge"; ls_dt := (9, false, 0); ls_cc := None; ls_bounds := Some (9, false, 0) |};
-   Some {| ls_axis := 3; ls_cell := "face"; ls_dt := (3, true, 1); ls_cc := Some (3, false, 1);
+  [Some {| ls_dim := "nNodes"; ls_axis := 7; ls_cell := "point"; ls_dt := (7, false, 0); ls_cc := None; ls_cc_old := None; ls_bounds := None |};
+   Some {| ls_dim := "nEdges"; ls_axis := 9; ls_cell := "edge"; ls_dt := (9, false, 0); ls_cc := None; ls_cc_old := None; ls_bounds := Some (9, false, 0) |};
+   Some {| ls_dim := "nFaces"; ls_axis := 3; ls_cell := "face"; ls_dt := (3, true, 1); ls_cc := Some (3, false, 1); ls_cc_old := Some (3, false, 1);
            ls_bounds := Some (3, true, 1) |}]).
 Proof. vm_compute. reflexivity. Qed.
